@@ -11,9 +11,11 @@ package lib
 //	c03t <T> <ver> <dialect> <hex> <tailhex>       the body followed by <tail> in the same array (cap = len + len tail);
 //	                                               the model side is Model/Total_cap.v (spare-capacity primitives)
 //	c03fseq <frame1> ... <frameN>                  ONE JTMessage decodes every frame; answer of the last (as op decode)
-//	c03ft <frame> <tailhex>                        implementation only: frame followed by tail in the same array
+//	c03ft <frame> <tailhex>                        frame followed by tail in the same array (model: decode_chk_cap)
+//	c03lt <0200|0704|0801> <body> <tail>           location carrier behind a tail (model: t0200_cap ...)
+//	c03et <kind> <dialect> <id> <content> <tail>   extension handler behind a tail (model: ext_cap)
 //	c03rtp <hex> | c03rseq <hex1> ... <hexN>       jt1078 Decode, fresh / ONE reused Packet (answer of the last)
-//	c03rt <hex> <tailhex>                          implementation only
+//	c03rt <hex> <tailhex>                          RTP packet behind a tail (model: rtp_decode_cap)
 //
 // dump: declaration order; BaseHandle, func-typed and unexported members skipped; numbers lowercase hex; bool 0/1;
 // string / []byte / [n]byte "x"+hex; struct, slice "(a,b,...)"; map by ascending key; nil pointer/interface "nil".
@@ -133,6 +135,9 @@ func C03TypeByName(n string) *C03Type {
 
 // c03SourceTypes parses the source of protocol/model in dir and returns the exported struct types that have a
 // Parse(*jt808.JTMessage) method, own or promoted from an embedded struct (BaseHandle's no-op does not count).
+// which Parse methods read the header version / the receiver's dialect (filled by c03SourceTypes)
+var c03SrcVerDep, c03SrcDialDep = map[string]bool{}, map[string]bool{}
+
 func c03SourceTypes(dir string) (withParse map[string]bool, err error) {
 	fset := token.NewFileSet()
 	matches, _ := filepath.Glob(filepath.Join(dir, "*.go"))
@@ -169,6 +174,19 @@ func c03SourceTypes(dir string) (withParse map[string]bool, err error) {
 				}
 				if id, ok := rt.(*ast.Ident); ok {
 					own[id.Name] = true
+					if x.Body != nil {
+						ast.Inspect(x.Body, func(n ast.Node) bool {
+							if se, ok := n.(*ast.SelectorExpr); ok {
+								switch se.Sel.Name {
+								case "ProtocolVersion":
+									c03SrcVerDep[id.Name] = true
+								case "ActiveSafetyType", "getTerminalIDLen", "getAlarmSignLen", "P9208AlarmSign":
+									c03SrcDialDep[id.Name] = true
+								}
+							}
+							return true
+						})
+					}
 				}
 			case *ast.GenDecl:
 				for _, s := range x.Specs {
@@ -211,6 +229,14 @@ func c03SourceTypes(dir string) (withParse map[string]bool, err error) {
 	for n := range structs {
 		if ast.IsExported(n) && n != "BaseHandle" && has(n, 0) {
 			withParse[n] = true
+			if !own[n] { // promoted Parse: the flags of the embedded type that has it
+				for _, e := range embeds[n] {
+					if own[e] {
+						c03SrcVerDep[n] = c03SrcVerDep[n] || c03SrcVerDep[e]
+						c03SrcDialDep[n] = c03SrcDialDep[n] || c03SrcDialDep[e]
+					}
+				}
+			}
 		}
 	}
 	return withParse, nil
@@ -238,6 +264,16 @@ func C03RegistryCheck() (missing, stale []string, dir string, err error) {
 	for n := range src {
 		if !reg[n] {
 			missing = append(missing, n)
+		}
+	}
+	// the hand-set flags: a Parse that reads Header.ProtocolVersion must be swept over the three header versions,
+	// one that reads the receiver's dialect over the dialects
+	for _, t := range C03Types {
+		if src[t.Name] && c03SrcVerDep[t.Name] != t.VerDep {
+			stale = append(stale, fmt.Sprintf("%s.VerDep=%v(source:%v)", t.Name, t.VerDep, c03SrcVerDep[t.Name]))
+		}
+		if src[t.Name] && c03SrcDialDep[t.Name] != t.DialDep {
+			stale = append(stale, fmt.Sprintf("%s.DialDep=%v(source:%v)", t.Name, t.DialDep, c03SrcDialDep[t.Name]))
 		}
 	}
 	sort.Strings(missing)
@@ -597,6 +633,16 @@ func init() {
 			vb = append(vb, C03VerBody{atoi(x[:i]), Unhx(x[i+1:])})
 		}
 		return C03ParseSeq(t, atoi(a[1]), vb)
+	})
+	// c03lt <0200|0704|0801> <body> <tail> : location carrier behind a tail (model: Model/Total_cap2.v)
+	RegisterOp("c03lt", func(a []string) string { return LocParse(a[0], Unhx(a[1]), Unhx(a[2])) })
+	// c03et <kind> <dialect> <id> <content> <tail> : extension handler behind a tail (as op ext; model: ext_cap)
+	RegisterOp("c03et", func(a []string) string {
+		h := NewExt(a[0], atoi(a[1]))
+		if h == nil {
+			return "bad-kind"
+		}
+		return ExtParse(h, atoi(a[2]), WithTail(Unhx(a[3]), Unhx(a[4])))
 	})
 	RegisterOp("c03fseq", func(a []string) string { return C03FrameSeq(c03UnhxAll(a), nil) })
 	RegisterOp("c03ft", func(a []string) string { return C03FrameSeq([][]byte{Unhx(a[0])}, Unhx(a[1])) })
